@@ -25,6 +25,8 @@ def check(ctx: Ctx, col: Collector, tier: str) -> None:
     col.spec("C11.SAME-MODULE", "an import is suppressed only for classes defined in the current module (segment-exact comparison)",
              "specialisation of _add_to_imports over module-path relations", floor=4)
     col.spec("C11.FOREIGN-PAIR", "a class of another library is imported and gets a placeholder stub", "paired effects on every path of _add_to_imports; one placeholder per member", floor=2)
+    col.spec("C11.EMITTED-TARGET", "an import (and the type or superclass reference it serves) names a class that some stub declares: classes the generator does not emit are not imported, "
+             "and the package part of an import is a module path", "emission guards of the class loops vs. the flags the import bookkeeping consults; shape of the registered qualified name for nested classes", floor=3)
     col.spec("C11.IMPORT-PATH", "the package an import names is spelled like the package line of the stub that declares it",
              "comparison of the conversion applied to module paths at the four sites", floor=4)
     col.spec("C11.IMPORT-RENDER", "every registered import becomes one import line", "shape of _create_imports_string", floor=2)
@@ -115,6 +117,22 @@ def check(ctx: Ctx, col: Collector, tier: str) -> None:
             col.bad("C11.SAME-MODULE", key, repo.loc(GEN, afi.node), f"import registered = {sorted(imported)}, reference {want}",
                     f"module {module_id.replace('/', '.')} referencing {qname} ({desc}): import registered = {sorted(imported)}, expected {want}")
 
+    # the stub of a re-exported element (module_id = the re-exporting package, reexport_module_id = package/Element) holds that element only
+    it = ctx.interp(afi, inline={"_get_module_id", "_is_path_connected_to_class"})
+    st = gen_state({"self.module_id": Const("rootpkg"), "self.reexport_module_id": Const("rootpkg/Table"), "self.currently_creating_reexport_data": Const(True),
+                    "self.module_imports": ListV((), False, "set"), "self.classes_outside_package": ListV((), False, "set")})
+    st.env["self.api"] = Obj("API", (("classes", ListV((Const("rootpkg/sub/shapes/Shape"),))), ("enums", ListV(())), ("reexport_map", DictV(()))))
+    it.summaries[("_get_shortest_public_reexport", "*")] = ListV((Const(""), Const("")))  # the class is not re-exported anywhere
+    outs = it.run_function(afi, {"self": Sym("self"), "import_qname": Const("rootpkg.sub.shapes.Shape")}, st)
+    imported = {any(e.kind == "mutate" and e.target.endswith("module_imports.add") for e in o.effects) for o in outs if o.kind != "raise"}
+    key = f"{GEN}::{GENCLS}._add_to_imports::same-module::re-exported element rootpkg/Table<-rootpkg.sub.shapes.Shape"
+    if imported == {True}:
+        col.ok("C11.SAME-MODULE", key, repo.loc(GEN, afi.node), "a class of a sub-package referenced from the stub of a re-exported element: import registered")
+    else:
+        col.bad("C11.SAME-MODULE", key, repo.loc(GEN, afi.node), f"import registered = {sorted(imported)}, reference True",
+                "in the stub of an element re-exported by package rootpkg, a class of rootpkg.sub.shapes is treated as 'defined in the current module' "
+                "(the comparison uses the id of the whole re-exporting package): it is referenced without an import")
+
     # ------------------------------------------------------------------ FOREIGN-PAIR
     it = ctx.interp(afi, inline={"_get_module_id"})
     st = gen_state({"self.module_id": Const("pkg/mod"), "self.currently_creating_reexport_data": Const(False), "self.module_imports": ListV((), False, "set"),
@@ -138,7 +156,7 @@ def check(ctx: Ctx, col: Collector, tier: str) -> None:
         stores = {"classes": ListV(()), "enums": ListV(())}
         stores[store] = ListV((Const("pkg/colors/Color"),))
         st.env["self.api"] = Obj("API", (("classes", stores["classes"]), ("enums", stores["enums"]), ("reexport_map", DictV(()))))
-        it.summaries[("_get_shortest_public_reexport", ())] = ListV((Const(""), Const("")))
+        it.summaries[("_get_shortest_public_reexport", "*")] = ListV((Const(""), Const("")))
         outs = it.run_function(afi, {"self": Sym("self"), "import_qname": Const("pkg.colors.Color")}, st)
         foreign = [o for o in outs if any(e.kind == "mutate" and e.target.endswith("classes_outside_package.add") for e in o.effects)]
         imported = [o for o in outs if any(e.kind == "mutate" and e.target.endswith("module_imports.add") for e in o.effects)]
@@ -163,6 +181,45 @@ def check(ctx: Ctx, col: Collector, tier: str) -> None:
     (col.ok if good else col.bad)("C11.FOREIGN-PAIR", f"{GENSTUBS}::create_stub_files::one-placeholder-per-member", repo.loc(GENSTUBS, sfi.node),
                                   "every member of classes_outside_package gets exactly one _create_outside_package_class call" if good else f"{len(ploops)} loops",
                                   *([] if good else ["not every class of another library gets its placeholder stub"]))
+
+    # ------------------------------------------------------------------ EMITTED-TARGET
+    mfi = repo.function(GEN, f"{GENCLS}._create_module_string")
+    col.touched(mfi)
+    mit = ctx.interp(mfi)
+    mit.run_function(mfi, {"self": Sym("self"), "module": Sym("module")}, gen_state())
+    cl = find_loops(mit, mfi, lambda v: sym_is(v, "module.classes"))
+    if len(cl) != 1:
+        raise AnalysisError("class loop of _create_module_string not found")
+    cnode, _, _, centry = cl[0]
+    referencing = [repo.function(GEN, f"{GENCLS}.{n}") for n in ("_add_to_imports", "_is_path_connected_to_class", "_create_type_string")]
+    for flag, value, desc in (("inherits_from_exception", True, "derives from Exception"), ("is_public", False, "is not public (e.g. a class of a private module that no package re-exports)")):
+        fields = {"name": Sym("X.name"), "id": Sym("X.id"), "is_public": Const(True), "inherits_from_exception": Const(False)}
+        fields[flag] = Const(value)
+        el = Obj("Class", tuple(fields.items()))
+        emitted = any(e.kind == "call" and e.target == "self._create_class_string" for o in run_body(mit, cnode, centry.clone(), el) for e in new_effects(o, centry))
+        consulted = any(isinstance(n, ast.Attribute) and n.attr == flag for fi in referencing for n in ast.walk(fi.node))
+        key = f"{GEN}::{GENCLS}._add_to_imports::target-emitted::{flag}={value}"
+        if emitted or consulted:
+            col.ok("C11.EMITTED-TARGET", key, repo.loc(GEN, afi.node), f"a class with {flag}={value}: emitted={emitted}, flag consulted when referenced={consulted}")
+        else:
+            col.bad("C11.EMITTED-TARGET", key, repo.loc(GEN, afi.node), f"a class with {flag}={value} is not emitted by the module loop, but nothing that registers imports or renders type names reads `{flag}`",
+                    f"a class of the analysed package that {desc} is never declared in a stub, yet a parameter, result, attribute or superclass that uses it gets `from <module> import <Class>`: the import names nothing")
+    # nested classes: the package part of the import must be the module, not the outer class
+    it = ctx.interp(afi, inline={"_get_module_id", "_is_path_connected_to_class"})
+    st = gen_state({"self.module_id": Const("pkg/b"), "self.currently_creating_reexport_data": Const(False), "self.module_imports": ListV((), False, "set"),
+                    "self.classes_outside_package": ListV((), False, "set")})
+    st.env["self.api"] = Obj("API", (("classes", ListV((Const("pkg/a/Outer"), Const("pkg/a/Outer/Inner")))), ("enums", ListV(())), ("reexport_map", DictV(())), ("modules", ListV((Const("pkg/a"), Const("pkg/b"))))))
+    it.summaries[("_get_shortest_public_reexport", "*")] = ListV((Const(""), Const("")))
+    outs = it.run_function(afi, {"self": Sym("self"), "import_qname": Const("pkg.a.Outer.Inner")}, st)
+    regs = {repr(e.args[0]) for o in outs for e in o.effects if e.kind == "mutate" and e.target.endswith("module_imports.add")}
+    key = f"{GEN}::{GENCLS}._add_to_imports::target-emitted::nested-class"
+    if repr(Const("pkg.a.Outer.Inner")) in regs:
+        col.bad("C11.EMITTED-TARGET", key, repo.loc(GEN, afi.node), f"registered import for the nested class pkg.a.Outer.Inner used in pkg.b: {sorted(regs)}",
+                "a nested class used as a type in another module is imported as `from pkg.a.Outer import Inner`: the package part names the outer class, not the module whose stub declares it")
+    elif regs:
+        col.ok("C11.EMITTED-TARGET", key, repo.loc(GEN, afi.node), f"registered import for a nested class: {sorted(regs)}")
+    else:
+        raise AnalysisError("nested-class probe of _add_to_imports registered no import")
 
     # ------------------------------------------------------------------ IMPORT-PATH
     em = EmitModel(ctx)
